@@ -679,6 +679,57 @@ def _validate_seq(ctx, module, cfgtext, spec_dirs, segments, name=None, max_reru
     return accepted, rejected
 
 
+def run_scenarios(ctx, drv, scs, name, what='the stack'):
+    """Run a scenario list through a script driver (`<drv> run <scenarios.json> <trace.ndjson>`, one reset-separated segment
+    per scenario) whose trace has a watchdog (harness/vh Trace.Watchdog: exit status 3 and a `stuck` event when an operation
+    of the code under test does not return).  A stuck scenario is re-run alone: stuck again = the real code does not return
+    from that operation, which is reported as a violation (non-termination, reproducible); the remaining scenarios are run
+    afterwards.  Returns the list of segments aligned with scs (the partial trace for a stuck scenario)."""
+    segs = []
+    todo = list(range(len(scs)))
+    rnd = 0
+    stuck_reported = 0
+    while todo:
+        rnd += 1
+        sp = os.path.join(ctx.work, '%s-scen-%d.json' % (name, rnd))
+        tp = os.path.join(ctx.work, '%s-trace-%d.ndjson' % (name, rnd))
+        write_json(sp, [scs[i] for i in todo])
+        p = ctx.run([drv, 'run', sp, tp], timeout=3000, ok_rc=(0, 3))
+        part = split_segments(read_ndjson(tp))
+        if p.returncode == 0:
+            if len(part) != len(todo):
+                raise Inconclusive('driver produced %d segments for %d scenarios' % (len(part), len(todo)))
+            segs += part
+            break
+        # watchdog: the last segment is the stuck scenario
+        if not part or not any(e.get('ev') == 'stuck' for e in part[-1]):
+            raise Inconclusive('driver exited with status 3 without a stuck event')
+        k = len(part) - 1
+        segs += part[:k]
+        si = todo[k]
+        sp1 = os.path.join(ctx.work, '%s-stuck-%d.json' % (name, rnd))
+        tp1 = os.path.join(ctx.work, '%s-stuck-%d.ndjson' % (name, rnd))
+        write_json(sp1, [scs[si]])
+        p1 = ctx.run([drv, 'run', sp1, tp1], timeout=3000, ok_rc=(0, 3))
+        again = split_segments(read_ndjson(tp1))
+        lastop = next((e for e in reversed(part[k]) if e.get('ev') in ('op', 'call')), {})
+        if p1.returncode == 3:
+            stuck_reported += 1
+            ctx.violation('%s does not return from an operation (no event for the watchdog period, reproduced on a re-run of the '
+                          'scenario alone); last completed operation: %s' % (what, {a: b for a, b in lastop.items() if a not in ('pay', 'raw', 'goroutines')}),
+                          dict(kind='stuck-scenario', scenario=scs[si], events=[e for e in part[k] if e.get('ev') != 'stuck'][-30:]))
+            segs.append([e for e in part[k] if e.get('ev') != 'stuck'])
+        else:
+            ctx.log('a watchdog hit did not reproduce (scenario %d): machine stall? using the re-run' % si)
+            segs.append(again[0] if again else part[k])
+        todo = todo[k + 1:]
+        if stuck_reported >= 3:
+            # enough evidence; the remaining scenarios are skipped (their segments are missing: callers index by position)
+            segs += [[dict(ev='reset', skipped=True)] for _ in todo]
+            break
+    return segs
+
+
 def compare_graphs(model_edges, real_edges):
     """Both arguments: set of (src_key, label, dst_key). Returns dict with the
     differences (model-only, real-only) and the matched fraction."""
